@@ -6,4 +6,8 @@ TraceNodes ==
   { N0("Src0"), NC("Src", "value", 6), N0("Mul"), N0("MulDef"), NK("Probe", "factor", ""), N0("Sq"),
     NK("Rename", "factor", "a"), N0("CtxW"), N0("CtxWBad"), N0("Boom"), N0("Abort"),
     NK("Probe", "", ""), WithBogus(N0("Sq")), N0("Sum"), NS("SweepSrc", <<1, 2>>) }
+\* length-4 programs: a smaller library (every failure kind still present) and two contexts
+Trace4Nodes == { N0("Src0"), N0("MulDef"), NK("Probe", "factor", ""), N0("Boom"), N0("Abort"),
+                 WithBogus(N0("Sq")), N0("Sum") }
+TinyCtxs == {[k \in Keys |-> Absent], [k \in Keys |-> IF k = "factor" THEN Num(3) ELSE Absent]}
 =============================================================================
